@@ -187,6 +187,18 @@ def index_checks(chk, rows, rng, quick, L, only_n=None):
                 # the default size is the number of visible units
                 if n <= 6 and not torch.equal(st.generate_hilbert_space(), space):
                     chk.violation("generate_hilbert_space:default-size", dict(n=n))
+                # the documented optional device argument, in every form a device can be named
+                if n <= 8:
+                    for dev in ("cpu", torch.device("cpu"), st.device):
+                        chk.evaluations += 1
+                        for form, sp2 in (("keyword", st.generate_hilbert_space(n, device=dev)),
+                                          ("positional", st.generate_hilbert_space(n, dev)),
+                                          ("default-size", st.generate_hilbert_space(device=dev) if n <= 6 else space)):
+                            if sp2.dtype != space.dtype or not torch.equal(sp2, space):
+                                chk.violation("generate_hilbert_space:device-argument",
+                                              dict(n=n, device=repr(dev), form=form, got=sp2.to(torch.int64).tolist()[:4],
+                                                   expected=want[:4]))
+                                break
                 idx = un._convert_basis_element_to_index(space)
                 if idx.to(torch.int64).tolist() != [rows[(n, k)]["index"] for k in range(2 ** n)]:
                     chk.violation("_convert_basis_element_to_index:space", dict(n=n))
@@ -203,6 +215,12 @@ def index_checks(chk, rows, rng, quick, L, only_n=None):
             chk.evaluations += 1
             if v.to(torch.int64).tolist() != e["row"] or v.dtype != torch.double:
                 chk.violation("subspace_vector:row", dict(n=n, k=k, expected=e["row"], got=v.tolist()))
+            if k % 5 == 0:
+                dev = ("cpu", torch.device("cpu"), st.device)[(k // 5) % 3]
+                for v2 in (st.subspace_vector(k, n, device=dev), st.subspace_vector(k, n, dev), st.subspace_vector(k, size=n, device=dev)):
+                    if v2.dtype != torch.double or v2.to(torch.int64).tolist() != e["row"]:
+                        chk.violation("subspace_vector:device-argument", dict(n=n, k=k, device=repr(dev), expected=e["row"], got=v2.tolist()))
+                        break
             i = un._convert_basis_element_to_index(torch.tensor(e["row"], dtype=torch.double))
             if int(i) != e["index"] or e["index"] != k:
                 chk.violation("_convert_basis_element_to_index:row", dict(n=n, row=e["row"], expected=e["index"], got=int(i)))
